@@ -149,6 +149,52 @@ macro_rules! convert_case {
   }};
 }
 
+/// `overlapped_by` (the iterator behind `RangeMOC::overlapped_by_iter`) is one more streaming operator exposing hints: they
+/// are judged against what it then yields (at creation and after 1 and 2 `next()`), and the FITS writer fed by it must
+/// write exactly the ranges it yields.  Runs AFTER the other generators (the pseudo-random stream of the trees is unchanged).
+fn overlap_hints<C: Combo>(sink: &mut Sink, rng: &mut Rng, thorough: bool) {
+  let max_depth = <C::Q as MocQty<C::T>>::MAX_DEPTH;
+  let n = if thorough { 1500 } else { 60 };
+  for i in 0..n {
+    let d = rng.below(max_depth as u64 + 1) as u8;
+    let l = if i % 9 == 0 { vec![] } else { random_moc_ranges::<C::T, C::Q>(rng, d, 5) };
+    let r = match i % 4 { 0 => l.clone(), 1 => l.iter().take(1).cloned().collect(), _ => random_moc_ranges::<C::T, C::Q>(rng, d, 5) };
+    let (ml, mr): (RangeMOC<C::T, C::Q>, RangeMOC<C::T, C::Q>) = (mk_moc(d, &l), mk_moc(d, &r));
+    for k in 0..3usize {
+      let line = std::panic::catch_unwind(AssertUnwindSafe(|| {
+        let mut it = ml.overlapped_by_iter(&mr);
+        for _ in 0..k {
+          it.next();
+        }
+        let last = it.peek_last().map(|r| r.start.to_u64()..r.end.to_u64());
+        let h = it.size_hint();
+        let rest: Vec<Range<C::T>> = it.collect();
+        format!("{} {} {} {}", if k == 0 { "hintok0" } else { "hintok" }, fmt_ranges(&to_u64_ranges(&rest)), fmt_opt_range(last), fmt_hint(h))
+      }));
+      if let Ok(line) = line {
+        sink.count("hint-node:overlapped_by");
+        sink.emit(&line, "true", !(l.is_empty() && r.is_empty()));
+      }
+    }
+    let expected = std::panic::catch_unwind(AssertUnwindSafe(|| fmt_ranges(&to_u64_ranges(&ml.overlapped_by_iter(&mr).collect::<Vec<Range<C::T>>>()))));
+    let written = guarded(AssertUnwindSafe(|| {
+      let mut buf = Vec::new();
+      match ml.overlapped_by_iter(&mr).to_fits_ivoa(None, None, &mut buf) {
+        Ok(()) => match C::fits_ranges(buf) {
+          Some(it) => fmt_ranges(&to_u64_ranges(&it.collect::<Vec<Range<C::T>>>())),
+          None => "err:unreadable".to_string(),
+        },
+        Err(e) => format!("err:{}", e.to_string().replace(' ', "_")),
+      }
+    }));
+    if let Ok(exp) = expected {
+      if written != exp {
+        sink.impl_failures.push(format!("C04 overlapped_by_iter(..).to_fits_ivoa wrote {} instead of the ranges the iterator yields {} ({} u{} depth {}: {} | {})", written, exp, C::QNAME, C::W, d, fmt_ranges(&l), fmt_ranges(&r)));
+      }
+    }
+  }
+}
+
 pub fn run(sink: &mut Sink, rng: &mut Rng, thorough: bool) {
   for_all_combos!(trees, sink, rng, thorough);
   for_all_combos!(unary_wrappers, sink, rng, thorough);
@@ -160,5 +206,6 @@ pub fn run(sink: &mut Sink, rng: &mut Rng, thorough: bool) {
   convert_case!(sink, rng, n, u32, u64, Time, "time", 32, 64, T32);
   convert_case!(sink, rng, n, u16, u64, Frequency, "freq", 16, 64, F16);
   convert_case!(sink, rng, n, u32, u64, Frequency, "freq", 32, 64, F32);
+  for_all_combos!(overlap_hints, sink, rng, thorough);
   let _ = (from_fits_ivoa::<Cursor<Vec<u8>>>, |_: MocIdxType<Cursor<Vec<u8>>>| (), |_: MocQtyType<u64, Cursor<Vec<u8>>>| (), |_: MocType<u64, Hpx<u64>, Cursor<Vec<u8>>>| ());
 }
